@@ -7,6 +7,10 @@
     (repetitions x instances x qubits); records<->measurements, data frame integers, histogram,
     _vectorized_histogram, multi_measurement_histogram, __add__, __eq__, JSON/_pack_digits round trip, str.
 (C) SimulatesSamples.run_sweep_iter / Sampler entry points carrying symbolic records (plumbing, bounded).
+(D) cirq/work/sampler.py : Sampler.sample over scripted samplers returning symbolic records: the pandas frame
+    (parameter columns, key columns, index) against the underlying runs, for `params` that expand to several
+    sweeps listing their symbols in different orders; parameter values and repetitions symbolic
+    (sweep semantics written from the documentation in oracles/sweep_shapes.py).
 """
 from __future__ import annotations
 
@@ -53,21 +57,39 @@ def _has_sym(v):
     return False
 
 
+def _as_object_frame(rec):
+    """the real pandas frame that the recorder stands for: what pandas.DataFrame(dict-of-columns) is documented
+    to build (one column per key in insertion order, RangeIndex), with OBJECT dtype so that it can hold symbolic
+    integers.  Used only to hand Result.data of a symbolic result to REAL pandas.concat inside Sampler.sample."""
+    import pandas as real_pd
+
+    data = {}
+    for c in rec.columns:
+        col = np.empty(len(rec.cols[c]), dtype=object)
+        for i, v in enumerate(rec.cols[c]):
+            col[i] = v
+        data[c] = col
+    return real_pd.DataFrame(data, dtype=object)
+
+
 def worker_setup():
-    """install the pd stub into cirq.study.result (worker processes only)"""
+    """install the pd stubs into cirq.study.result / cirq.work.sampler (worker processes only)"""
     import types
 
     import pandas as real_pd
 
     import cirq.study.result as R
     import cirq.value.digits as DG
+    import cirq.work.sampler as WS
     from symx.proxy import IntShim
 
     # big_endian_digits_to_int accumulates with int(d): the shim passes symbolic integers through
     # (isinstance(x, int) stays true for real ints and for SInt)
     DG.__dict__['int'] = IntShim
+    stubs = ['cirq.study.result.pd.DataFrame (recorder for symbolic columns; real pandas otherwise)', 'cirq.value.digits.int (IntShim: int(x) passes symbolic integers through)',
+             'cirq.work.sampler.pd.concat (a recorder frame coming from Result.data is first turned into the real object-dtype DataFrame it stands for; DataFrame(rows, columns) and both concat calls are REAL pandas on object columns)']
     if isinstance(R.pd, types.ModuleType) and getattr(R.pd, '_c18_stub', False):
-        return ['cirq.value.digits.int (IntShim)']
+        return stubs
 
     class PdStub(types.ModuleType):
         _c18_stub = True
@@ -81,8 +103,20 @@ def worker_setup():
                 return FrameRecorder(data, dtype)
             return real_pd.DataFrame(data, *a, dtype=dtype, **k)
 
+    class SamplerPdStub(types.ModuleType):
+        _c18_stub = True
+
+        def __getattr__(self, name):
+            return getattr(real_pd, name)
+
+        @staticmethod
+        def concat(objs, *a, **k):
+            objs = [_as_object_frame(o) if isinstance(o, FrameRecorder) else o for o in objs]
+            return real_pd.concat(objs, *a, **k)
+
     R.pd = PdStub('pandas')
-    return ['cirq.study.result.pd.DataFrame (recorder for symbolic columns; real pandas otherwise)', 'cirq.value.digits.int (IntShim: int(x) passes symbolic integers through)']
+    WS.pd = SamplerPdStub('pandas')
+    return stubs
 
 
 def frame_view(df):
@@ -933,6 +967,181 @@ def sampler_obligations(tier):
         desc='SOLVER-DRIVEN BOUNDED EXPLORATION of Sampler.run/run_async/run_sweep/run_sweep_async/run_batch/run_batch_async/_normalize_batch_args over a scripted sampler (only run_sweep, or only run_sweep_async, implemented) that returns fresh SYMBOLIC records; repetition counts are symbolic integers in [0,2] (per-program list r0, r1, r0+r1): every returned result is the result of the matching underlying run (program, resolver, repetitions), in documented order',
     ))
 
+    # ---- Sampler.sample: the data frame tells the same story as the underlying run_sweep calls ------------
+    from oracles.sweep_shapes import expand as expand_shape
+
+    prog_c = cirq.Circuit(cirq.X(q0) ** t, cirq.measure(q1, key='z'), cirq.measure(q0, q1, key='k'))  # keys NOT in sorted order
+    SPEC[id(prog_c)] = [('z', 1, _b(1), None), ('k', 1, _b(2), None)]
+    NAME[id(prog_c)] = 'c'
+
+    def build_sweepable(shape, pool):
+        """the real cirq / Python objects a shape of oracles/sweep_shapes.py describes"""
+        if shape is None:
+            return None
+        if isinstance(shape, list):
+            return [build_sweepable(s, pool) for s in shape]
+        kind = shape[0]
+        if kind == 'points':
+            return cirq.Points(shape[1], [pool[i] for i in shape[2]])
+        if kind in ('zip', 'ziplongest', 'product', 'concat'):
+            return {'zip': cirq.Zip, 'ziplongest': cirq.ZipLongest, 'product': cirq.Product, 'concat': cirq.Concat}[kind](*[build_sweepable(f, pool) for f in shape[1]])
+        if kind == 'listsweep':
+            return cirq.ListSweep([cirq.ParamResolver({name: pool[i] for name, i in kv}) if j % 2 else {name: pool[i] for name, i in kv} for j, kv in enumerate(shape[1])])
+        mk = sympy.Symbol if kind.endswith(':sym') else str
+        d = {mk(name): ([pool[j] for j in i] if isinstance(i, tuple) else pool[i]) for name, i in shape[1]}  # insertion order = listed order
+        return cirq.ParamResolver(d) if kind.startswith('resolver') else d
+
+    D_ = lambda *kv: ('dict', kv)
+    R_ = lambda *kv: ('resolver', kv)
+    P_ = lambda name, *idx: ('points', name, idx)
+    Z_ = lambda *f: ('zip', f)
+    ZL_ = lambda *f: ('ziplongest', f)
+    X_ = lambda *f: ('product', f)
+    C_ = lambda *f: ('concat', f)
+    L_ = lambda *kvs: ('listsweep', kvs)
+    OMIT = ('omit',)
+    sample_shapes = [
+        ('list of dicts whose keys are listed in different orders', [D_(('a', 0), ('b', 1)), D_(('b', 2), ('a', 3))]),
+        ('list of Zip sweeps over the same symbols in different orders', [Z_(P_('a', 0, 1), P_('b', 2, 3)), Z_(P_('b', 4, 5), P_('a', 1, 2))]),
+        ('list of Product sweeps over the same symbols in different orders', [X_(P_('a', 0, 1), P_('b', 2)), X_(P_('b', 3, 4), P_('a', 5, 0))]),
+        ('mixed ParamResolver / dict / Zip / Product', [R_(('b', 0), ('a', 1)), D_(('a', 2), ('b', 3)), Z_(P_('b', 4), P_('a', 5)), X_(P_('a', 0), P_('b', 2))]),
+        ('three symbols, the first sweep lists them unsorted', [D_(('c', 0), ('a', 1), ('b', 2)), Z_(P_('b', 3, 4), P_('c', 5, 0), P_('a', 1, 2)), R_(('b', 4), ('c', 3), ('a', 5))]),
+        ('one Zip sweep (not a list), keys unsorted', Z_(P_('b', 0, 1), P_('a', 2, 3))),
+        ('one 2x2 Product sweep, keys unsorted', X_(P_('b', 0, 1), P_('a', 2, 3))),
+        ('params and repetitions omitted (defaults)', OMIT),
+        ('params=None', None),
+        ('single ParamResolver, keys unsorted', R_(('b', 0), ('a', 1))),
+        ('single dict, one symbol', D_(('b', 0))),
+        ('nested lists, ZipLongest (shorter factor repeats its last value)', [[D_(('b', 0), ('a', 1))], [ZL_(P_('a', 2), P_('b', 3, 4, 5)), [R_(('a', 0), ('b', 5))]]]),
+        ('Product of a Zip and Points, then a dict in yet another order', [X_(Z_(P_('c', 0, 1), P_('a', 2, 3)), P_('b', 4, 5)), D_(('a', 1), ('b', 0), ('c', 3))]),
+        ('dict with sequence values (implicit Cartesian product, one sweep per assignment)', D_(('b', (0, 1)), ('a', (2, 3)))),
+        ('Concat of Zips, then a ListSweep of resolvers / dicts in different key orders', [C_(Z_(P_('b', 0), P_('a', 1)), Z_(P_('b', 2, 3), P_('a', 4, 5))), L_((('a', 0), ('b', 1)), (('b', 2), ('a', 3)), (('b', 4), ('a', 5)))]),
+        ('dict and ParamResolver keyed by sympy.Symbol next to ones keyed by name', [('dict:sym', (('b', 0), ('a', 1))), R_(('a', 2), ('b', 3)), ('resolver:sym', (('b', 4), ('a', 5)))]),
+    ]
+    if thorough:
+        sample_shapes += [
+            ('list of 3-symbol Products in all different orders', [X_(P_('a', 0, 1), P_('b', 2), P_('c', 3, 4)), X_(P_('c', 5), P_('a', 0, 2), P_('b', 1, 3)), X_(P_('b', 4), P_('c', 5), P_('a', 1))]),
+            ('Zip of Products', [Z_(X_(P_('b', 0, 1), P_('a', 2, 3)), P_('c', 4, 5, 0, 1)), Z_(P_('c', 2, 3), X_(P_('a', 4, 5), P_('b', 0)))]),
+        ]
+    bad_shapes = [
+        ('disjoint symbols', [D_(('a', 0)), D_(('b', 1))]),
+        ('second sweep lacks a symbol', [Z_(P_('a', 0, 1), P_('b', 2, 3)), D_(('a', 4))]),
+        ('second sweep has an extra symbol', [R_(('a', 0)), X_(P_('b', 1), P_('a', 2))]),
+        ('empty mapping next to a non-empty one', [None, D_(('a', 0))]),
+        ('third sweep differs', [D_(('a', 0), ('b', 1)), D_(('b', 2), ('a', 3)), Z_(P_('a', 4), P_('c', 5))]),
+    ]
+    MAXREPS = 4 if thorough else 3
+
+    PRIMS = ['run_sweep', 'run_sweep_async', 'SimulatesSamples._run']
+
+    def scripted_sim(cx):
+        """a SimulatesSamples whose _run returns fresh symbolic records: Sampler.sample -> the REAL SimulatesSamples.run_sweep(_iter) -> _run"""
+        log = []
+
+        class Sim(cirq.SimulatesSamples):
+            def _run(self, circuit, param_resolver, repetitions):
+                recs, D = sym_records(cx, SPEC[id(circuit)], int(repetitions), prefix=f'c{len(log)}{NAME[id(circuit)]}')
+                log.append({'program': circuit, 'params': param_resolver, 'repetitions': repetitions, 'D': D})
+                return recs
+
+        return Sim(), log
+
+    def param_pool(cx):
+        """solver-chosen parameter values: integers and reals mixed (they may coincide)"""
+        return [cx.int(f'v{i}', -3, 3) if i % 2 == 0 else cx.real(f'v{i}', -2, 2) for i in range(6)]
+
+    def frame_rows(df):
+        """(column labels, index labels, {column: values}) of a real pandas frame (object columns in symbolic mode)"""
+        cols = list(df.columns)
+        if len(set(cols)) != len(cols):
+            return cols, None, None
+        return cols, [py(i) for i in df.index.tolist()], {c: [py(x) for x in df[c].tolist()] for c in cols}
+
+    def call_sample(s, prog, shape, pool, reps):
+        import warnings
+
+        if shape is OMIT:
+            return s.sample(prog)
+        with warnings.catch_warnings():
+            warnings.simplefilter('ignore', DeprecationWarning)  # implicit product of a dict with sequence values
+            return s.sample(prog, repetitions=reps, params=build_sweepable(shape, pool))
+
+    def sample_frame(cx, wrong=False):
+        label, shape = sample_shapes[cx.choose('params', len(sample_shapes))]
+        prog = [prog_c, prog_a][cx.choose('program', 2)]
+        prim = PRIMS[cx.choose('primitive', len(PRIMS))]
+        s, log = scripted_sim(cx) if prim == 'SimulatesSamples._run' else scripted(cx, cirq.Sampler, prim == 'run_sweep_async')
+        pool = param_pool(cx)
+        reps = cx.int('reps', 0, MAXREPS)
+        df = call_sample(s, prog, shape, pool, reps)
+        if shape is OMIT:
+            reps = 1
+        # ---- oracle: the parameter assignments in documented order ------------------------------------------
+        blocks = [a for sweep in expand_shape(None if shape is OMIT else shape, pool) for a in sweep]
+        names = sorted(blocks[0])
+        keys = [k for k, *_ in SPEC[id(prog)]]
+        n = int(reps)  # already pinned by the run (the scripted primitive needs a concrete number of rows / the simulator base class tests == 0)
+        # (1) the underlying runs: one per assignment, in order, with exactly that assignment and `repetitions`
+        if prim == 'SimulatesSamples._run' and n == 0:
+            cx.check(len(log) == 0, 'zero repetitions: SimulatesSamples does not call _run')
+            runs = [None] * len(blocks)  # there are no rows whose origin could be compared below
+        else:
+            runs = log
+            conds = [len(log) == len(blocks)]
+            for e, b in zip(log, blocks):
+                pd_ = {str(k): v for k, v in e['params'].param_dict.items()}
+                conds += [e['program'] is prog, EQ(e['repetitions'], reps), sorted(pd_.keys()) == sorted(b.keys())]
+                conds += [EQ(pd_[nm], b[nm]) for nm in b if nm in pd_]
+            cx.check(AND(conds), 'run_sweep is asked for every parameter assignment of every sweep exactly once, in order, with the given repetitions')
+        # (2) shape conventions of the frame
+        cols, index, vals = frame_rows(df)
+        cx.check(cols == names + keys, 'columns: one per symbol, sorted by name, followed by one per measurement key in the order of the result')
+        cx.check(index == [r for _ in blocks for r in range(n)], 'index: the repetition number 0..repetitions-1, restarting for each parameter assignment')
+        rows_ok = all(len(vals[c]) == n * len(blocks) for c in cols)
+        cx.check(rows_ok, 'one row per sample')
+        if not rows_ok:
+            return
+        # (3) every row: parameter columns = the resolver that produced the row's records; key columns = those records
+        conds = []
+        for i, (e, b) in enumerate(zip(runs, blocks)):
+            told = dict(b)
+            if wrong and len(names) >= 2:  # twin: values filed under the wrong symbol
+                told[names[0]], told[names[1]] = b[names[1]], b[names[0]]
+            for r in range(n):
+                row = i * n + r
+                conds += [EQ(vals[nm][row], told[nm]) for nm in names]
+                conds += [EQ(vals[k][row], bits_value(e['D'][k][r][0], little_endian=wrong and len(names) < 2)) for k in keys]
+        cx.check(AND(conds), f'sample[{label}]: row r of assignment i holds, under each symbol name, the value the resolver of run i gives it, and under each key the big-endian integer of run i, repetition r')
+
+    obs.append(Obligation(
+        'sampler.sample_frame', sample_frame, twin=_twin(sample_frame), opts={'weight': 3},
+        points=[{'choose:params': i, 'choose:program': i % 2, 'choose:primitive': p, 'reps': r} for i, r, p in ((0, 2, 0), (1, 3, 2), (2, 1, 1), (3, 2, 2), (4, 2, 0), (7, 0, 1), (11, 2, 2), (12, 1, 0), (13, 2, 1), (6, 0, 2), (5, 0, 0), (14, 2, 0), (15, 1, 2))],
+        desc='Sampler.sample over a scripted sampler (only run_sweep, or only run_sweep_async, or a SimulatesSamples whose _run is scripted so that the real SimulatesSamples.run_sweep sits in between) that returns fresh SYMBOLIC records and logs every underlying run: `params` drawn from a menu of '
+        + f'{len(sample_shapes)} Sweepable shapes that expand to several sweeps whose symbols are listed in DIFFERENT orders (list of dicts, lists of Zip / Product / ZipLongest sweeps, mixed ParamResolvers, nested lists, '
+        'dict with sequence values, 2-3 symbols, single sweep, None, defaults), ALL parameter values solver variables (6-value pool, integers in [-3,3] and reals in [-2,2] mixed, coincidences allowed), '
+        f'repetitions symbolic in [0,{MAXREPS}], 2 programs (keys listed unsorted / sorted, 1-2 bits, all bits symbolic): the runs requested are the documented expansion in order; the frame has the symbol columns sorted by name then the key columns, '
+        'index = repetition number restarting per assignment, and every row holds the values of the resolver that produced its records under the right names and the big-endian integers of those records. '
+        'Real pandas builds and concatenates the frames (object columns in symbolic mode); only Result.data of a symbolic result goes through the recorder',
+    ))
+
+    def sample_inconsistent(cx, wrong=False):
+        label, shape = bad_shapes[cx.choose('params', len(bad_shapes))]
+        s, log = scripted(cx, cirq.Sampler, False)
+        pool = param_pool(cx)
+        reps = cx.int('reps', 0, MAXREPS)
+        raised = False
+        try:
+            call_sample(s, prog_c, shape, pool, reps)
+        except ValueError:
+            raised = True
+        cx.check(raised != wrong, f'sample[{label}] raises ValueError: the sweeps do not assign the same symbols')
+
+    obs.append(Obligation(
+        'sampler.sample_inconsistent_keys', sample_inconsistent, twin=_twin(sample_inconsistent), kind='bounded-exploration',
+        points=[{'choose:params': i} for i in range(len(bad_shapes))],
+        desc='SOLVER-DRIVEN BOUNDED EXPLORATION: Sampler.sample raises the documented ValueError when the sweeps of `params` assign different symbol sets (5 shapes; values and repetitions symbolic but irrelevant)',
+    ))
+
     def run_sweep_iter(cx, wrong=False):
         log = []
 
@@ -1035,7 +1244,9 @@ LEVEL = (
     'sign and width (given by a complete binary / mixed-radix expansion whose every digit is a solver variable). Every branch the code takes on a symbolic '
     'value (a bit test, an ordering inside np.unique, a dict-key equality, a range check) is a solver-decided fork, and every feasible path ends in VCs that '
     'compare the view with its definition (big-endian place values, multiset of folded values, concatenation). Shapes, key sets, base menus and entry points '
-    'are finite selectors explored exhaustively; obligations marked bounded-exploration (str, qudit JSON, sampler plumbing) have no arithmetic content beyond that.'
+    'are finite selectors explored exhaustively; obligations marked bounded-exploration (str, qudit JSON, sampler plumbing) have no arithmetic content beyond that. '
+    'Sampler.sample: parameter values (integers and reals), record bits and the repetition count are solver variables carried by the real sweep / resolver / sampler / pandas code into the returned frame, '
+    'whose entries are compared term by term with the resolver and records of the underlying run that the row belongs to; the shape of `params` is an enumerated selector.'
 )
 
 
@@ -1056,9 +1267,16 @@ def main(tier, seed=0, replay=None, only=None, procs=None):
             'eq/add': '__eq__ with <=4 digits per side; __add__ reps 0..2 + 0..2',
         },
         'sampler': 'scripted samplers (only run_sweep or only run_sweep_async implemented) returning symbolic records; repetition counts symbolic in [0,2] / [0,3]; 3 programs, sweeps of 2 (3 thorough) points',
+        'sampler.sample': {
+            'symbolic': 'all parameter values (pool of 6: v0,v2,v4 integers in [-3,3], v1,v3,v5 reals in [-2,2], coincidences allowed), all record bits, repetitions in [0,3] (quick) / [0,4] (thorough; the scripted primitive concretises it: one path per value)',
+            'enumerated': '16 (quick) / 18 (thorough) shapes of `params` (list of dicts in different key orders; lists of Zip / Product / ZipLongest / Concat / ListSweep sweeps over the same 2-3 symbols in different orders; mixed ParamResolver / dict / sweep lists, nested lists, dict with sequence values, sympy.Symbol keys, single sweep, single resolver / dict, None, all defaults) with <= 8 parameter assignments; 3 primitives (run_sweep, run_sweep_async, SimulatesSamples._run under the real SimulatesSamples.run_sweep); 2 programs with 2 keys of 1-2 bits (keys listed sorted / unsorted); 5 inconsistent shapes for the documented ValueError',
+            'pandas': 'REAL pandas builds the parameter table and performs both concat calls (object columns holding the symbolic values in symbolic mode; ordinary int64/float64 columns at the concrete validation points and replays); the only stand-in is that the recorder returned by Result.data for symbolic bits is converted into the object-dtype frame it stands for when it reaches pd.concat in cirq.work.sampler. Column dtypes are therefore seen only at the concrete points',
+            'conventions checked': 'symbol columns sorted by name, then key columns in the order of the result keys; index = repetition number restarting at 0 for each parameter assignment; one row per sample; assignments in the documented sweep order (Product: leftmost factor outermost; Zip: shortest; ZipLongest: last value repeated)',
+        },
         'outside': [
             'numpy fixed-width scalar arithmetic of concrete records (symbolic digits are mathematical integers): see the reported finding about histogram(fold_base) beyond int64',
-            'Sampler.sample (pandas concat), pandas internals, json text encoding of non-record fields',
+            'pandas internals, json text encoding of non-record fields',
+            'Sampler.sample: Linspace / formula-valued resolvers (sweep arithmetic belongs to C10), empty sweeps / an empty list of sweeps, a measurement key that coincides with a symbol name, keys measured more than once per repetition or wider than 63 bits (Result.data obligations cover the widths), sample_expectation_values',
             'np.save/np.load of non-binary digits on symbolic data (C boundary; covered only by harness-concretised exploration)',
             'cirq_google engine_result / processor_sampler / validating_sampler, ZerosSampler (no symbolic content: constant zeros), plot_state_histogram',
             'symbolic bases; more than 3 repetitions / 4 symbolic qubits per key in histogram obligations; int_to_digits bin() fast path for negative val (documented precondition val >= 0)',
@@ -1068,5 +1286,6 @@ def main(tier, seed=0, replay=None, only=None, procs=None):
         'symbolic integers are mathematical (unbounded) integers; records in symbolic mode are numpy object arrays, so dtype-specific behaviour of fixed-width numpy integers is not modelled (concrete replays use int64 arrays, or object arrays of Python ints where digits exceed 2^31)',
         'HInt (symx/hint.py): symbolic integers with a CONSTANT hash, so dict/Counter/np.unique decisions are forks on == / < between symbolic values instead of enumerations of values',
         'pd.DataFrame in cirq.study.result is a recorder for symbolic columns (worker processes only)',
+        'pd.concat in cirq.work.sampler converts such a recorder into a real pandas DataFrame of object dtype (same columns, RangeIndex) and then calls real pandas; pandas is trusted to move Python objects in object columns unchanged',
     ]
     return run_check(PID, tier, 'checks.C18', SHIMS, LEVEL, assumptions, bounds, seed=seed, replay=replay, only=only, procs=procs)
